@@ -52,6 +52,8 @@ fn spec_image(fnum: u16, min_addr: u32, max_addr: u32, align: u32, preference: u
 
 #[kani::proof]
 pub fn k_relocatable_decode() {
+    // the preference word is a 32-bit field
+    assert!(core::mem::size_of::<RelocatableHeaderTagPreference>() == 4);
     let bytes = AlignedBytes(kani::any::<[u8; 24]>());
     let b = &bytes.0;
     kani::assume(le16(b, 0) == 10);
